@@ -1,5 +1,6 @@
 import Pamqp.Spec.Defs
 import Pamqp.Generated.Catalogue
+import Pamqp.Proofs.Mapping
 /-!
 # C19 — frames expose their arguments consistently as a mapping
 -/
@@ -24,11 +25,11 @@ theorem C19_mapping (names : List String) (vals : List PyVal) (hl : vals.length 
     Base.len names = names.length ∧
     (∀ a, Base.contains names a = true ↔ a ∈ names) ∧
     (∀ a v, (a, v) ∈ Base.iter names vals ↔ Base.getItem names vals a = some v) := by
-  sorry
+  exact Mapping.mapping names vals hl hn
 
 /-- the per-argument wire type is the one paired with the name -/
 theorem C19_amqp_type (args : List (String × WireTy)) (hn : (args.map (·.1)).Nodup) (a : String) (t : WireTy) :
     (a, t) ∈ args ↔ Base.amqpType args a = some t := by
-  sorry
+  exact Mapping.amqpType_iff args hn a t
 
 end Pamqp.Props
